@@ -3,7 +3,7 @@
 # full .vo build of the Coq development, extraction, OCaml driver.
 set -e
 cd "$(dirname "$0")"
-export PYTHONHASHSEED=0 PYTHONPATH=/repo TOMMIKAIKKONEN_PRETTYPRINTER_VERIF=1 PYTHONDONTWRITEBYTECODE=1
+export PYTHONHASHSEED=0 PYTHONPATH=${VERIF_REPO:-/repo} TOMMIKAIKKONEN_PRETTYPRINTER_VERIF=1 PYTHONDONTWRITEBYTECODE=1
 mkdir -p build evidence replays
 /venv/bin/python - <<'PY'
 import sys
